@@ -597,6 +597,7 @@ type c19Node struct {
 	addr   string
 	offset time.Duration
 	noTime bool // answers, but without CurrentTime
+	delay  time.Duration // request/response delay of this peer
 	peers  []string
 	hits   int
 	mu     sync.Mutex
@@ -606,7 +607,13 @@ func (nd *c19Node) ServeHTTP(w http.ResponseWriter, r *http.Request) {
 	nd.mu.Lock()
 	nd.hits++
 	nd.mu.Unlock()
+	if nd.delay > 0 {
+		time.Sleep(nd.delay / 2)
+	}
 	now := time.Now().Add(nd.offset)
+	if nd.delay > 0 {
+		time.Sleep(nd.delay / 2)
+	}
 	w.Header().Set("Content-Type", "application/json")
 	if nd.noTime {
 		json.NewEncoder(w).Encode(map[string]interface{}{"State": "Follower", "Peers": nd.peers})
@@ -657,32 +664,42 @@ func TestVerifC19Net(t *testing.T) {
 		flag    bool
 		offsets []time.Duration // index 0 is the join target for the "master" entry point
 		dead    []bool
+		delay   time.Duration // answering peers take this long (the refused connections do not)
 	}
 	h := time.Hour
 	s := time.Second
 	scens := []scen{
-		{"all-healthy", false, []time.Duration{0, 0, 0}, []bool{false, false, false}},
-		{"first-ahead-1h", false, []time.Duration{h, 0, 0}, []bool{false, false, false}},
-		{"last-ahead-1h", false, []time.Duration{0, 0, h}, []bool{false, false, false}},
-		{"first-behind-1h", false, []time.Duration{-h, 0, 0}, []bool{false, false, false}},
-		{"middle-behind-3s", false, []time.Duration{0, -3 * s, 0}, []bool{false, false, false}},
-		{"last-ahead-3s", false, []time.Duration{0, 0, 3 * s}, []bool{false, false, false}},
-		{"first-ahead-3s", false, []time.Duration{3 * s, 0, 0}, []bool{false, false, false}},
-		{"healthy-one-dead", false, []time.Duration{0, 0, 0}, []bool{false, false, true}},
-		{"healthy-two-dead", false, []time.Duration{0, 0, 0}, []bool{false, true, true}},
-		{"ahead-1h-one-dead", false, []time.Duration{0, h, 0}, []bool{false, false, true}},
-		{"behind-1h-other-dead", false, []time.Duration{-h, 0, 0}, []bool{false, true, false}},
-		{"healthy-one-without-time", false, []time.Duration{0, 0, c19NoTime}, []bool{false, false, false}},
-		{"ahead-3s-one-without-time", false, []time.Duration{0, 3 * s, c19NoTime}, []bool{false, false, false}},
-		{"disabled-ahead-1h", true, []time.Duration{h, 0, -h}, []bool{false, false, false}},
-		{"disabled-healthy", true, []time.Duration{0, 0, 0}, []bool{false, false, false}},
+		{"all-healthy", false, []time.Duration{0, 0, 0}, []bool{false, false, false}, 0},
+		{"first-ahead-1h", false, []time.Duration{h, 0, 0}, []bool{false, false, false}, 0},
+		{"last-ahead-1h", false, []time.Duration{0, 0, h}, []bool{false, false, false}, 0},
+		{"first-behind-1h", false, []time.Duration{-h, 0, 0}, []bool{false, false, false}, 0},
+		{"middle-behind-3s", false, []time.Duration{0, -3 * s, 0}, []bool{false, false, false}, 0},
+		{"last-ahead-3s", false, []time.Duration{0, 0, 3 * s}, []bool{false, false, false}, 0},
+		{"first-ahead-3s", false, []time.Duration{3 * s, 0, 0}, []bool{false, false, false}, 0},
+		{"healthy-one-dead", false, []time.Duration{0, 0, 0}, []bool{false, false, true}, 0},
+		{"healthy-two-dead", false, []time.Duration{0, 0, 0}, []bool{false, true, true}, 0},
+		{"ahead-1h-one-dead", false, []time.Duration{0, h, 0}, []bool{false, false, true}, 0},
+		{"behind-1h-other-dead", false, []time.Duration{-h, 0, 0}, []bool{false, true, false}, 0},
+		{"healthy-one-without-time", false, []time.Duration{0, 0, c19NoTime}, []bool{false, false, false}, 0},
+		{"ahead-3s-one-without-time", false, []time.Duration{0, 3 * s, c19NoTime}, []bool{false, false, false}, 0},
+		{"disabled-ahead-1h", true, []time.Duration{h, 0, -h}, []bool{false, false, false}, 0},
+		{"disabled-healthy", true, []time.Duration{0, 0, 0}, []bool{false, false, false}, 0},
+	}
+	// the same situations with slow answers: a peer that fails fast must not make the answers of the slow
+	// ones disappear (all request/response delays are in the property's scope; delays stay far below the
+	// election timeout so that the expected verdict is the same)
+	for _, sc := range append([]scen{}, scens...) {
+		slow := sc
+		slow.name += "-slow"
+		slow.delay = 160 * time.Millisecond
+		scens = append(scens, slow)
 	}
 	for _, sc := range scens {
 		for _, entry := range []string{"SynchronizedWithNetwork", "SynchronizedWithMasterAndNetwork"} {
 			nodes := make([]*c19Node, len(sc.offsets))
 			addrs := make([]string, len(sc.offsets))
 			for i := range sc.offsets {
-				nd := &c19Node{offset: sc.offsets[i]}
+				nd := &c19Node{offset: sc.offsets[i], delay: sc.delay}
 				if sc.offsets[i] == c19NoTime {
 					nd.offset, nd.noTime = 0, true
 				}
